@@ -59,9 +59,6 @@ def run(ctx):
         info, bad = cc.coq_sample(recs)
         extra["in_coq_reevaluation"] = info
         mism += [{"case": b, "what": "in-Coq (vm_compute) evaluation of the model differs from the implementation"} for b in bad]
-        if "C01" == "C01":
-            ok, summary = cc.coqchk_axioms(PROJ, ["QzCron.Props.C01", "QzCron.Props.C02", "QzCron.Props.C06", "QzCron.Props.C14"])
-            extra["coqchk"] = {"ok": ok, "summary": summary}
     vlib.decide(ctx, broken, failures, mism, search)
     cov = vlib.proof_coverage(res, PROJ, "C01")
     cov.update(extra)
